@@ -160,6 +160,9 @@ class ProgBase(plumpy.Process):
             elif kind == 'inp':
                 # the step looks at its (parsed) inputs
                 self._t('inp', fx[1], _jsonable(self.inputs.get(fx[1], '<default>')))
+            elif kind == 'ident':
+                # the step looks at its own identity (for a process constructed without a pid the pid is the uuid)
+                self._t('ident', repr(self.pid) == repr(self.uuid), self.pid is not None)
             elif kind == 'soon':
                 self.call_soon(_make_cb(self, fx[1], fx[2]))
             elif kind == 'ctl':
